@@ -187,8 +187,11 @@ func Run(s *simrt.Sim, a *harness.Args, r *harness.Result) {
 					}
 					live := !w.closing
 					s.Logf("%s returns c%d (live=%v)", name, c.id, live)
+					gen := c.handedOut
 					w.p.Return(o.key, c)
-					if live && !w.closing {
+					// (another worker may have been handed the connection
+					// before this Return call came back)
+					if live && !w.closing && c.handedOut == gen {
 						c.returnedLive = true
 					}
 				}
